@@ -1,5 +1,5 @@
 """Per-property pipelines.  Each takes a driver.Ctx and fills it."""
-import json, os
+import json, random, os
 import core
 import gen
 from core import cfg_text
@@ -225,9 +225,10 @@ def p_C06(ctx):
     r = hist_tlc_edges(ctx, "edges", m, m, ops=INSERT_OPS, workers=4)
     ctx.count_nontrivial(r.cases_path, hist_key)
     ctx.sample_from(r.cases_path)
-    combos = [("dev", "elem", 0), ("dev", "elem", 1), ("release", "u32", 1), ("release", "elem", 2), ("dev", "zst", 0), ("release", "zst", 1)]
+    combos = [("dev", "elem", 0), ("dev", "elem", 1), ("release", "u32", 1), ("release", "elem", 2), ("dev", "zst", 0), ("release", "zst", 1),
+              ("release", "tok", 0)]
     if not ctx.quick:
-        combos += [("dev", "u32", 0), ("dev", "u32", 2), ("release", "elem", 0), ("release", "elem", 1), ("dev", "elem", 2)]
+        combos += [("dev", "u32", 0), ("dev", "u32", 2), ("release", "elem", 0), ("release", "elem", 1), ("dev", "elem", 2), ("dev", "tok", 1)]
     for prof, elem, cap in combos:
         ctx.replay(r.cases_path, attr_hist, profile=prof, elem=elem, cap=cap, label="insert-edges")
     # code -> spec: random histories incl. LARGE arrays (long rows/columns, hundreds of cells) validated by TLC
@@ -421,7 +422,9 @@ def p_C04(ctx):
     ctx.rule = ("every mutating trait operation (indexed writes, fill, swap family, row_pair_mut, rows_mut/col_mut/cells_mut "
                 "write-through forwards and backwards, the copy family, translate, flips, all sort variants with all key patterns) "
                 "with every argument, through a mutable view at every window position of every parent shape (nested, thorough); "
-                "the WHOLE root is compared with Embed(root, window, Op(window)); distinct by (shape, stack, op, args)")
+                "the WHOLE root is compared with Embed(root, window, Op(window)); plus every call SEQUENCE (next, next_back, nth, "
+                "nth_back, last, fold, ... up to a depth bound) of rows_mut / col_mut / cells_mut / &mut-IntoIterator through every "
+                "window with every yielded reference written through; distinct by (shape, stack, op, args)")
     ctx.assumptions = ACC_ASSUME
     if ctx.quick:
         r = acc_tlc(ctx, "mutview", MUT_GROUPS, [13, 31, 23, 32, 33], kinds=("owned", "slice_m"), depth=1)
@@ -441,6 +444,17 @@ def p_C04(ctx):
         acc_replays(ctx, r2, [("dev", "u32"), ("release", "elem")], "mutview-nested")
     acc_random(ctx, ["prim", "move", "move", "copy", "copy", "write", "sort"], 9000 if ctx.quick else 90000, 12, only_views=True, profile="dev", large_share=0.35)
     acc_random(ctx, ["prim", "move", "copy", "write", "sort"], 2000 if ctx.quick else 30000, 9, only_views=True, profile="release", elem="elem", label="big-elem")
+    # mutable iteration in EVERY call order (not only forwards / backwards): all call sequences of the mutable iterators
+    # through every window, every yielded reference written through, whole root compared (SeqIter.tla / IterMC.tla)
+    mk = ["rows_mut", "col_mut", "cells_mut", "into_mut"]
+    si = iter_tlc(ctx, "mutiter-sequences", mk, [23, 32] if ctx.quick else [13, 31, 23, 32, 33], rkinds=("owned", "slice_m"), depth=1,
+                  bigs=(BIG_MAX,), seqmode=True, maxcalls=2 if ctx.quick else 3, workers=8 if ctx.quick else 12)
+    seli = os.path.join(ctx.outdir, "mutiter.sel.ndjson")
+    core.filter_cases(si.cases_path, seli, lambda c: len(c["stack"]) > 0)
+    ctx.count_nontrivial(seli, iter_key)
+    ctx.sample_from(seli, 1)
+    for prof, elem in [("dev", "u32"), ("release", "elem")]:
+        ctx.replay(seli, attr_iter, profile=prof, elem=elem, label="mutiter-sequences")
 
 
 def p_C13(ctx):
@@ -556,6 +570,12 @@ def attr_iter(case, fail):
     else:
         props = {ITER_KIND_PROP[t]}
         if kind == "frame" or (kind == "write_through" and len(case["stack"]) > 0):
+            props.add("C04")
+        # a mutable iterator over a mutable view that yields the wrong cells hands out references the view does not
+        # cover (or withholds ones it does): C04's "inside the rectangle ... exactly the effect on an owned array"
+        d0 = fail.get("detail", {}) if isinstance(fail.get("detail"), dict) else {}
+        yielded = any(isinstance(d0.get(w), dict) and d0[w].get("k") in ("ids", "some", "fold") for w in ("expected", "observed"))
+        if t in ("rows_mut", "col_mut", "cells_mut", "into_mut") and len(case["stack"]) > 0 and kind == "res" and yielded:
             props.add("C04")
     d = fail.get("detail", {}) if isinstance(fail.get("detail"), dict) else {}
     sig = {"family": "iter", "iter": t, "op": op, "kind": kind,
@@ -685,10 +705,11 @@ def p_C19(ctx):
     ctx.rule = ("documents generated from the grammar of Serde.tla: (structure) every sequence of up to 4 (quick) / 5 (thorough) fields "
                 "over {num_cols, num_rows, data, unknown} - every subset, order, duplication, duplicates with equal and different values; "
                 "(values) every field order x dimension tokens {0..3, 2^32, 2^63, 2^64-1, 2^64, -1, 1.5, string, null}^2 x data "
-                "{length product-1, product, product+1, ill-typed element first/last, non-array}; (tops) non-object documents; each "
+                "{length product-1, product, product+1, ill-typed element first/last, non-array}; (tops) non-object documents; (positional) "
+                "every top-level sequence of up to 4 / 5 items over dimension and data tokens - never a panic, consistent if accepted; each "
                 "rendered plainly and with escaped keys and fed to from_str / from_slice / from_reader / from_value; distinct by document")
     ctx.assumptions = SERDE_ASSUME
-    r = serde_tlc(ctx, "documents", ["structure", "values", "tops", "roundtrip"], 4 if ctx.quick else 5)
+    r = serde_tlc(ctx, "documents", ["structure", "values", "tops", "positional", "roundtrip"], 4 if ctx.quick else 5)
     ctx.count_nontrivial(r.cases_path, lambda c: c["doc"])
     ctx.sample_from(r.cases_path)
     ctx.replay(r.cases_path, attr_serde, profile="dev", label="documents")
@@ -798,6 +819,30 @@ def fault_key(case):
     return [st["op"], st["a"], st.get("fault"), pre.get("nc"), pre.get("nr"), [s["op"] for s in case["steps"][:-1]][-4:]]
 
 
+def afail_overlay(src, dst, ops, ks=(0, 1), limit=None, seed=0):
+    """Memory exhaustion overlay on TLC-emitted cases: in each case the last step whose call is in `ops` is marked
+    "afail": k - the k-th allocation request made during that call is refused.  The specification gives the event no
+    effect (TooDee.tla, "Environment"): the process may end there, otherwise every expectation of the case stands."""
+    out = []
+    with open(src) as fi:
+        for line in fi:
+            c = json.loads(line)
+            idxs = [i for i, st in enumerate(c["steps"]) if st["op"] in ops and "fault" not in st]
+            if not idxs:
+                continue
+            for k in ks:
+                c2 = json.loads(line)
+                c2["steps"][idxs[-1]]["afail"] = k
+                out.append(c2)
+    if limit is not None and len(out) > limit:
+        random.Random(seed).shuffle(out)
+        out = out[:limit]
+    with open(dst, "w") as fo:
+        for c in out:
+            fo.write(json.dumps(c) + "\n")
+    return len(out)
+
+
 def p_C11(ctx):
     ctx.rule = ("for every operation that runs caller code and every reachable shape/index: the k-th call into the supplied iterator's "
                 "next/next_back/len panics (k = 0..n), the iterator lies about its length (one short, one long, usize::MAX), the k-th Clone / "
@@ -811,7 +856,8 @@ def p_C11(ctx):
     r = hist_tlc_edges(ctx, "faults", m, m, ops=("none",), faults=("iter", "clone", "default", "drop", "cmp"), workers=4)
     ctx.count_nontrivial(r.cases_path, fault_key)
     ctx.sample_from(r.cases_path)
-    combos = [("dev", "elem", 0), ("release", "elem", 1)] + ([] if ctx.quick else [("dev", "elem", 2), ("dev", "zst", 0), ("release", "u32", 0)])
+    # "tok": move-only elements without drop glue (needs_drop::<T>() is false): never dropped twice, yet duplicable
+    combos = [("dev", "elem", 0), ("release", "elem", 1), ("release", "tok", 0)] + ([] if ctx.quick else [("dev", "elem", 2), ("dev", "zst", 0), ("release", "u32", 0), ("dev", "tok", 1)])
     for prof, elem, cap in combos:
         ctx.replay_and_validate(r.cases_path, attr_fault_replay, attr_fault_event, profile=prof, elem=elem, cap=cap, label="faults")
     # code -> spec: random long histories (incl. LARGE arrays) with faults / leaks injected at random calls; everything after a
@@ -820,8 +866,8 @@ def p_C11(ctx):
         f = ev.get("fault", {})
         return ({"C11"} if f.get("kind") in ("panic_at", "lie") else {"C11", "C12"}) | ({"C05"} if ledger_evidence(ev) else set()), {"family": "fault-drive", "op": ev.get("ev"), "kind": "trace_rejected", "fault": f.get("kind")}
     nh, steps = (250, 40) if ctx.quick else (3000, 80)
-    for prof, seed_off in (("dev", 21), ("release", 22)):
-        ctx.drive_and_validate("drive-faults", ["hist", ctx.seed + seed_off, nh, steps, 6, "{out}", "elem", "faults"], "TooDeeTrace",
+    for prof, seed_off, el in (("dev", 21, "elem"), ("release", 22, "tok")):
+        ctx.drive_and_validate("drive-faults-" + el, ["hist", ctx.seed + seed_off, nh, steps, 6, "{out}", el, "faults"], "TooDeeTrace",
                                attr_fault_drive_event, profile=prof, invariants=("ShapeOK", "HandleOK"))
 
 
@@ -837,17 +883,25 @@ def p_C12(ctx):
     r = hist_tlc_edges(ctx, "leaks", m, m, ops=("leak_borrow",), faults=("forget",), workers=4)
     ctx.count_nontrivial(r.cases_path, fault_key)
     ctx.sample_from(r.cases_path)
-    combos = [("dev", "elem", 0), ("release", "elem", 1), ("dev", "zst", 0)] + ([] if ctx.quick else [("dev", "u32", 2), ("release", "zst", 1)])
+    combos = [("dev", "elem", 0), ("release", "elem", 1), ("dev", "zst", 0), ("release", "tok", 0)] + ([] if ctx.quick else [("dev", "u32", 2), ("release", "zst", 1), ("dev", "tok", 2)])
     for prof, elem, cap in combos:
         ctx.replay_and_validate(r.cases_path, attr_fault_replay, attr_fault_event, profile=prof, elem=elem, cap=cap, label="leaks")
+    # environment overlay: memory exhaustion during the call that creates the drain (a fallback path taken only then
+    # must be as leak-safe as the main one); the process ending there is the permitted alternative
+    ov = os.path.join(ctx.outdir, "leaks-oom.cases.ndjson")
+    n_ov = afail_overlay(r.cases_path, ov, REMOVE_OPS | {"into_iter"}, ks=(0, 1), limit=400 if ctx.quick else 6000, seed=ctx.seed)
+    core.REPLAY_STATS["oom_aborts"] = 0
+    ctx.replay_and_validate(ov, attr_fault_replay, attr_fault_event, profile="release", elem="elem", cap=0, label="leaks-oom")
+    ctx.notes.append("memory exhaustion overlay: %d cases, %d ended the process at the refused allocation (permitted)"
+                     % (n_ov, core.REPLAY_STATS.get("oom_aborts", 0)))
     # code -> spec: random long histories (incl. LARGE arrays) with faults / leaks injected at random calls; everything after a
     # fault is validated from the state the real crate was left in ("then or later")
     def attr_fault_drive_event(case, ev):
         f = ev.get("fault", {})
         return ({"C12"} if f.get("kind") == "forget" else {"C11", "C12"}) | ({"C05"} if ledger_evidence(ev) else set()), {"family": "fault-drive", "op": ev.get("ev"), "kind": "trace_rejected", "fault": f.get("kind")}
     nh, steps = (250, 40) if ctx.quick else (3000, 80)
-    for prof, seed_off in (("dev", 21), ("release", 22)):
-        ctx.drive_and_validate("drive-faults", ["hist", ctx.seed + seed_off, nh, steps, 6, "{out}", "elem", "faults"], "TooDeeTrace",
+    for prof, seed_off, el in (("dev", 21, "elem"), ("release", 22, "tok")):
+        ctx.drive_and_validate("drive-faults-" + el, ["hist", ctx.seed + seed_off, nh, steps, 6, "{out}", el, "faults"], "TooDeeTrace",
                                attr_fault_drive_event, profile=prof, invariants=("ShapeOK", "HandleOK"))
 
 
